@@ -58,6 +58,20 @@ def step (w : World) (toks : List String) : World × String :=
       | some n => ({ w with nodes := w.nodes.set i { n with pref := l } }, "ok")
       | none => bad
     | _, _ => bad
+  | ["blacklist", i, ip, port] =>
+    match i.toNat?, ip.toNat?, port.toNat? with
+    | some i, some ip, some port =>
+      match w.nodes[i]? with
+      | some n => ({ w with nodes := w.nodes.set i { n with blacklist := n.blacklist ++ [⟨ip, port⟩] } }, "ok")
+      | none => bad
+    | _, _, _ => bad
+  | ["maxpeers", i, m] =>
+    match i.toNat?, m.toNat? with
+    | some i, some m =>
+      match w.nodes[i]? with
+      | some n => ({ w with nodes := w.nodes.set i { n with maxPeers := m } }, "ok")
+      | none => bad
+    | _, _ => bad
   | ["clock", i, c] =>
     match i.toNat?, c.toNat? with
     | some i, some c =>
